@@ -8,6 +8,61 @@ namespace SkaModel
 
 open Spec
 
+namespace Dedup
+/-! ### `eraseDups` (the set of distinct requested names) -/
+
+theorem eraseDups_nodup_aux {α : Type _} [BEq α] [LawfulBEq α] :
+    ∀ (n : Nat) (l : List α), l.length ≤ n → l.eraseDups.Nodup
+  | _, [], _ => by simp
+  | 0, _ :: _, h => by simp at h
+  | n + 1, a :: as, h => by
+    rw [List.eraseDups_cons, List.nodup_cons]
+    refine ⟨?_, eraseDups_nodup_aux n _ ?_⟩
+    · intro hm
+      rw [List.mem_eraseDups, List.mem_filter] at hm
+      simp at hm
+    · have := List.length_filter_le (fun b => !b == a) as
+      simp only [List.length_cons] at h
+      omega
+
+/-- the distinct entries of a list are pairwise distinct -/
+theorem eraseDups_nodup {α : Type _} [BEq α] [LawfulBEq α] (l : List α) : l.eraseDups.Nodup :=
+  eraseDups_nodup_aux l.length l (Nat.le_refl _)
+
+/-- a list without repetitions is its own list of distinct entries -/
+theorem eraseDups_of_nodup {α : Type _} [BEq α] [LawfulBEq α] {l : List α} (h : l.Nodup) : l.eraseDups = l := by
+  induction l with
+  | nil => simp
+  | cons a as ih =>
+    rw [List.nodup_cons] at h
+    rw [List.eraseDups_cons]
+    have hf : as.filter (fun b => !b == a) = as := by
+      rw [List.filter_eq_self]
+      intro b hb
+      have : b ≠ a := fun e => h.1 (e ▸ hb)
+      simpa using this
+    rw [hf, ih h.2]
+
+theorem eraseDups_idem {α : Type _} [BEq α] [LawfulBEq α] (l : List α) : l.eraseDups.eraseDups = l.eraseDups :=
+  eraseDups_of_nodup (eraseDups_nodup l)
+
+theorem eraseDups_isEmpty {α : Type _} [BEq α] [LawfulBEq α] (l : List α) : l.eraseDups.isEmpty = l.isEmpty := by
+  cases l with
+  | nil => simp
+  | cons a as => simp [List.eraseDups_cons]
+
+theorem eraseDups_eq_nil_iff {α : Type _} [BEq α] [LawfulBEq α] (l : List α) : l.eraseDups = [] ↔ l = [] := by
+  cases l with
+  | nil => simp
+  | cons a as => simp [List.eraseDups_cons]
+
+/-- two lists without repetitions and with the same members have the same length -/
+theorem length_eq_of_nodup_of_mem_iff {α : Type _} {l₁ l₂ : List α} (h₁ : l₁.Nodup) (h₂ : l₂.Nodup)
+    (h : ∀ a, a ∈ l₁ ↔ a ∈ l₂) : l₁.length = l₂.length :=
+  ((List.perm_ext_iff_of_nodup h₁ h₂).mpr h).length_eq
+
+end Dedup
+
 /-- one step of the index fold of `delete_samples` -/
 def keepStep (acc : List Nat × List String) (ni : String × Nat) : List Nat × List String :=
   if acc.2.contains ni.1 then (acc.1, acc.2.erase ni.1) else (acc.1 ++ [ni.2], acc.2)
@@ -116,11 +171,11 @@ def Arr.deleteResult (a : Arr) (del : List String) : Arr :=
 
 theorem deleteSamples_eq (a : Arr) (del : List String) :
     a.deleteSamples del =
-      if del.isEmpty || del.length == a.names.length then none
+      if del.isEmpty || del.eraseDups.length == a.names.length then none
       else if del.eraseDups.any (fun n => !a.names.contains n) then none
       else some (a.deleteResult del) := by
   unfold Arr.deleteSamples
-  by_cases h1 : (del.isEmpty || del.length == a.names.length) = true
+  by_cases h1 : (del.isEmpty || del.eraseDups.length == a.names.length) = true
   · simp only [h1, if_true]
   · by_cases h2 : (del.eraseDups.any (fun n => !a.names.contains n)) = true
     · simp only [h1, h2, if_true]
